@@ -22,6 +22,7 @@ import LA.Drive.Thr
 import LA.Drive.ClientWrite
 import LA.Drive.Xtr
 import LA.Drive.ReadData
+import LA.Drive.Flt
 open LA
 
 def engines : List (String × Engine) := [
@@ -49,7 +50,8 @@ def engines : List (String × Engine) := [
   ("xtr", LA.Xtr.engine),
   ("xtrtar", LA.Xtr.engine),
   ("pathclean", LA.Xtr.enginePath),
-  ("rdd", LA.RD.engine)
+  ("rdd", LA.RD.engine),
+  ("flt", LA.Flt.engine)
 ]
 
 partial def loop (e : Engine) (h : IO.FS.Stream) (out : IO.FS.Stream) (s : e.σ) : IO Unit := do
